@@ -12,6 +12,7 @@ import (
 	"a0verif/ref"
 
 	"github.com/islishude/bip39"
+	"github.com/islishude/bip39/zzclock"
 )
 
 // C06Case is one fault case: NewMnemonic(N, Lang) against a scripted device.
@@ -20,6 +21,9 @@ type C06Case struct {
 	Lang   int      `json:"lang"`
 	Dev    plan.Dev `json:"dev"`
 	Family string   `json:"family,omitempty"`
+	// PreMs: simulated milliseconds that had passed in the process when this case started (slow reads of earlier
+	// cases move the process's clock); recorded with a violation so that the replay plan sets the same stage
+	PreMs int64 `json:"pre_ms,omitempty"`
 }
 
 type C06Job struct {
@@ -167,6 +171,11 @@ func (r *c06run) one(c C06Case) {
 		res.Probes["fresh_device_after_a_slow_case"]++
 	}
 	r.taint = false
+	if now := int64(zzclock.Offset() / 1e6); r.explicit && c.PreMs > now {
+		zzclock.Jump(c.PreMs - now)
+	} else if !r.explicit {
+		c.PreMs = now
+	}
 	r.d.Arm(&c.Dev)
 	var o plan.Outcome
 	func() {
